@@ -1,12 +1,12 @@
 package main
 
 import (
-	"runtime"
-	"path/filepath"
 	"encoding/json"
 	"flag"
 	"fmt"
 	"os"
+	"path/filepath"
+	"runtime"
 	"strings"
 )
 
@@ -15,7 +15,8 @@ func usage() {
   govc dump <substring>                         print SSA of matching functions
   govc verify [-slice C04,..] [-safety] [-keep] <function-key-substring>
   govc check <property-id> <quick|thorough>     run the check of a property
-  govc list                                     list contracts`)
+  govc list                                     list contracts
+  govc conform [-n N] [-out file.json] [substring]   test trusted specs of plain-value functions against the real code`)
 	os.Exit(2)
 }
 
@@ -56,6 +57,39 @@ func main() {
 		}
 		for _, er := range e.specs.errors {
 			fmt.Println("SPEC ERROR:", er)
+		}
+	case "conform":
+		fs := flag.NewFlagSet("conform", flag.ExitOnError)
+		n := fs.Int("n", 300, "inputs per spec")
+		outFile := fs.String("out", "", "write the report as JSON")
+		fs.Parse(os.Args[2:])
+		e, err := loadEngine(repo, verifDir)
+		if err != nil {
+			fmt.Fprintln(os.Stderr, err)
+			os.Exit(2)
+		}
+		reps, bad := e.conformAll(fs.Arg(0), *n)
+		tested := 0
+		for _, r := range reps {
+			if r.Skipped != "" {
+				continue
+			}
+			tested++
+			fmt.Printf("%-70s %4d inputs (%d returned, %d panicked): %d clause checks held, %d inconclusive, %d mismatches\n", r.Spec, r.Inputs, r.Returned, r.Panicked, r.ClausesHeld, r.Inconclusive, len(r.Mismatches))
+			for _, m := range r.Mismatches {
+				fmt.Println("    SPEC-MISMATCH:", m)
+			}
+			for _, m := range r.Imprecise {
+				fmt.Println("    imprecise:", m)
+			}
+		}
+		fmt.Printf("conform: %d trusted specs, %d tested against the real functions, %d with mismatches\n", len(reps), tested, bad)
+		if *outFile != "" {
+			b, _ := json.MarshalIndent(reps, "", " ")
+			os.WriteFile(*outFile, b, 0o644)
+		}
+		if bad > 0 {
+			os.Exit(1)
 		}
 	case "verify":
 		fs := flag.NewFlagSet("verify", flag.ExitOnError)
